@@ -119,11 +119,13 @@ fn check_mono_instances(
         for (fname, count) in m {
             let want = count.as_u64().unwrap_or(0);
             let prefix = format!("{fname}__");
+            // functions of library packages are called `Pkg::name`
+            let base = |n: &str| -> String { n.rsplit("::").next().unwrap_or(n).to_string() };
             let got = comp
                 .mono
                 .toplevels
                 .iter()
-                .filter(|f| f.name == *fname || f.name.starts_with(&prefix))
+                .filter(|f| base(&f.name) == *fname || base(&f.name).starts_with(&prefix))
                 .count() as u64;
             // arms the match compiler proves unreachable need no instance: fewer is fine,
             // more means an instantiation nobody asked for (or a duplicate)
@@ -132,7 +134,7 @@ fn check_mono_instances(
                     .mono
                     .toplevels
                     .iter()
-                    .filter(|f| f.name == *fname || f.name.starts_with(&prefix))
+                    .filter(|f| base(&f.name) == *fname || base(&f.name).starts_with(&prefix))
                     .map(|f| f.name.as_str())
                     .collect();
                 return Err((
@@ -181,14 +183,25 @@ fn nontrivial(kind: Kind, labels: &BTreeSet<String>, expected: &Expected) -> boo
 impl ProgCheck {
     fn judge_text(&self, input: &Value, ctx: &mut Ctx) -> CaseOut {
         let text = input["text"].as_str().unwrap_or("");
-        let key = fnv_str(text);
+        let key = if input.get("files").is_some() { fnv_str(&input["files"].to_string()) } else { fnv_str(text) };
         let labels_in: BTreeSet<String> = input["labels"]
             .as_array()
             .map(|a| a.iter().filter_map(|x| x.as_str().map(|s| s.to_string())).collect())
             .unwrap_or_default();
         let expected = Expected::from_json(&input["expected"]);
         let mut labels: Vec<String> = labels_in.iter().cloned().collect();
-        let res = goml::compile_single(ctx, text);
+        let res = if input.get("files").is_some() {
+            let files = goml::files_from_json(&input["files"]);
+            if files.len() >= 2 {
+                labels.push("multi-package".into());
+            }
+            if files.len() >= 3 {
+                labels.push("multi-package:3".into());
+            }
+            goml::compile_project(ctx, &files)
+        } else {
+            goml::compile_single(ctx, text)
+        };
         match res {
             CompileRes::Panic(pn) => {
                 // crashes are C04's subject; here the case cannot be judged
@@ -257,6 +270,9 @@ impl Check for ProgCheck {
             PhaseSpec { name: "programs", cases: tier.pick(40_000, 600_000), max_bytes: 500, exhaustive: false },
             PhaseSpec { name: "large", cases: tier.pick(6_000, 100_000), max_bytes: 1200, exhaustive: false },
         ];
+        if matches!(self.kind, Kind::C01 | Kind::C02 | Kind::C07) {
+            v.push(PhaseSpec { name: "multipkg", cases: tier.pick(20_000, 300_000), max_bytes: 520, exhaustive: false });
+        }
         if self.kind == Kind::C09 {
             v.push(PhaseSpec { name: "go", cases: tier.pick(2_000, 40_000), max_bytes: 80, exhaustive: false });
         }
@@ -284,10 +300,25 @@ impl Check for ProgCheck {
         if phase == "go" {
             return crate::gogen::make_go_case(bytes, if ctx.tier == Tier::Thorough { 1000 } else { 200 });
         }
+        // multi-package phase: the last bytes choose the package layout
+        let (bytes, layout_bytes) = if phase == "multipkg" {
+            bytes.split_at(bytes.len().saturating_sub(16))
+        } else {
+            (bytes, &bytes[..0])
+        };
         let mut d = Dec::new(bytes);
         let cfg = cfg_for(self.kind, phase, ctx.tier, index);
         let p = gen_program(&mut d, cfg, ctx);
-        let text = render(&p);
+        let files = if phase == "multipkg" {
+            let layout = crate::gen::layout::choose_layout(&p, &mut Dec::new(layout_bytes));
+            Some(crate::gen::render::render_project(&p, &layout))
+        } else {
+            None
+        };
+        let text = match &files {
+            Some(fs) => fs.iter().find(|(p, _)| p == "main.gom").map(|(_, t)| t.clone()).unwrap_or_default(),
+            None => render(&p),
+        };
         let expected = if self.kind == Kind::C02 {
             json!({"skip": "not-run"})
         } else {
@@ -295,6 +326,10 @@ impl Check for ProgCheck {
         };
         let mut input = json!({"text": text, "expected": expected,
             "labels": p.labels.iter().cloned().collect::<Vec<_>>(), "nodes": p.nodes});
+        if let Some(fs) = &files {
+            input["files"] = goml::files_to_json(fs);
+            input["packages"] = json!(fs.len());
+        }
         if self.kind == Kind::C07 {
             let mut counts: BTreeMap<String, u64> = BTreeMap::new();
             for (i, f) in p.fns.iter().enumerate() {
@@ -322,7 +357,7 @@ impl Check for ProgCheck {
         behave::calibrate()
     }
     fn rule(&self) -> String {
-        let common = "type-directed random programs (construction, no rejection) over structs/enums (plain and generic), generic functions, closures, tuples, arrays, Vec, Ref, all 8 integer widths, strings, if/match/while/let patterns, with print 'ticks' planted in operands, arguments, conditions and branches, and every computed value printed; three size classes (<=18, <=60/120, <=120/300 nodes). Shapes excluded by construction because of open known findings are counted under excluded_by_gate. ";
+        let common = "type-directed random programs (construction, no rejection) over structs/enums (plain and generic), generic functions, closures, tuples, arrays, Vec, Ref, all 8 integer widths, strings, if/match/while/let patterns, with print 'ticks' planted in operands, arguments, conditions and branches, and every computed value printed; three size classes (<=18, <=60/120, <=120/300 nodes); in the multipkg phase (C01, C02, C07) the same programs are split over 2-3 packages (every item placed in a package not below the items it refers to, cross-package references qualified) and compiled as a project. Shapes excluded by construction because of open known findings are counted under excluded_by_gate. ";
         let oracle = match self.kind {
             Kind::C01 => "Oracle: stdout and end state (normal / failure kind) of the emitted Go run by the Go-subset interpreter equal the reference interpreter's run of the source model; corpus phase: the currently emitted Go of every corpus program reproduces the output recorded from real Go. Non-trivial = program prints >=1 line, uses ticks and >=4 distinct feature labels.",
             Kind::C02 => "Oracle: the emitted Go text parses and type-checks under the Go-subset checker (declared once/before use, assignability, call/return/composite literal typing, unused variables/imports, constant overflow, division by constant zero, missing return ...). Non-trivial = program declares a user type and uses a closure, function value or generic instantiation.",
@@ -341,8 +376,8 @@ impl Check for ProgCheck {
     }
     fn required_labels(&self, _tier: Tier) -> Vec<&'static str> {
         match self.kind {
-            Kind::C01 => vec!["tick", "match", "closure", "generic-call", "while", "end:Normal", "end:Failed(Index)"],
-            Kind::C02 => vec!["adt:struct", "adt:enum", "closure", "generic-call", "vec", "ref", "array"],
+            Kind::C01 => vec!["tick", "match", "closure", "generic-call", "while", "end:Normal", "end:Failed(Index)", "multi-package"],
+            Kind::C02 => vec!["adt:struct", "adt:enum", "closure", "generic-call", "vec", "ref", "array", "multi-package"],
             Kind::C07 => vec!["generic-call", "generic-call:composite", "mono-instances-checked"],
             Kind::C08 => vec!["closure:capture", "closure:call"],
             Kind::C09 => vec!["tick", "while:cond-effect", "end:Failed(DivZero)", "go", "go:all-schedules", "go:schedule-dependent-output"],
